@@ -108,6 +108,7 @@ use fuel_vm::{
     },
     storage::{
         BlobData,
+        ContractsAssetsStorage,
         InterpreterStorage,
         MemoryStorage,
     },
@@ -143,7 +144,7 @@ type Vm = VmS<MemoryStorage>;
 #[derive(Debug, Clone, PartialEq, Eq, Hash)]
 enum Obs {
     /// Ok(..) with a label (proceed / return / returndata / revert / state name)
-    Ok(String),
+    Ok(&'static str),
     /// `InterpreterError::PanicInstruction` — a well-formed VM panic of an instruction
     VmPanic(PanicReason),
     /// `InterpreterError::Panic` — a well-formed panic not tied to an instruction
@@ -192,11 +193,11 @@ fn of_exec<E: core::fmt::Debug>(
 ) -> Obs {
     match r {
         Err(m) => Obs::HostPanic(m),
-        Ok(Ok(ExecuteState::Proceed)) => Obs::Ok("proceed".into()),
-        Ok(Ok(ExecuteState::Return(_))) => Obs::Ok("return".into()),
-        Ok(Ok(ExecuteState::ReturnData(_))) => Obs::Ok("returndata".into()),
-        Ok(Ok(ExecuteState::Revert(_))) => Obs::Ok("revert".into()),
-        Ok(Ok(ExecuteState::DebugEvent(_))) => Obs::Ok("debug".into()),
+        Ok(Ok(ExecuteState::Proceed)) => Obs::Ok("proceed"),
+        Ok(Ok(ExecuteState::Return(_))) => Obs::Ok("return"),
+        Ok(Ok(ExecuteState::ReturnData(_))) => Obs::Ok("returndata"),
+        Ok(Ok(ExecuteState::Revert(_))) => Obs::Ok("revert"),
+        Ok(Ok(ExecuteState::DebugEvent(_))) => Obs::Ok("debug"),
         Ok(Err(e)) => of_error(e),
     }
 }
@@ -206,10 +207,10 @@ fn of_state<E: core::fmt::Debug>(
 ) -> Obs {
     match r {
         Err(m) => Obs::HostPanic(m),
-        Ok(Ok(ProgramState::Return(_))) => Obs::Ok("Return".into()),
-        Ok(Ok(ProgramState::ReturnData(_))) => Obs::Ok("ReturnData".into()),
-        Ok(Ok(ProgramState::Revert(_))) => Obs::Ok("Revert".into()),
-        Ok(Ok(_)) => Obs::Ok("Debug".into()),
+        Ok(Ok(ProgramState::Return(_))) => Obs::Ok("Return"),
+        Ok(Ok(ProgramState::ReturnData(_))) => Obs::Ok("ReturnData"),
+        Ok(Ok(ProgramState::Revert(_))) => Obs::Ok("Revert"),
+        Ok(Ok(_)) => Obs::Ok("Debug"),
         Ok(Err(e)) => of_error(e),
     }
 }
@@ -217,7 +218,7 @@ fn of_state<E: core::fmt::Debug>(
 fn of_predicates<T>(r: Result<Result<T, PredicateVerificationFailed>, String>) -> Obs {
     match r {
         Err(m) => Obs::HostPanic(m),
-        Ok(Ok(_)) => Obs::Ok("predicates-ok".into()),
+        Ok(Ok(_)) => Obs::Ok("predicates-ok"),
         Ok(Err(PredicateVerificationFailed::Bug(b))) => Obs::Bug(format!("{b:?}")),
         Ok(Err(PredicateVerificationFailed::Storage { .. })) => {
             Obs::Storage("predicate storage".into())
@@ -319,7 +320,7 @@ fn judge_final(obs: &Obs, entry: &str, fault_injected: bool) -> Option<Finding> 
 // ------------------------------------------------------------------ environment
 
 const G_SINGLE: u64 = 1_000_000;
-const G_PROG: u64 = 100_000;
+const G_PROG: u64 = 20_000;
 const G_PROBE: u64 = 2_000_000;
 const MEM: u64 = VM_MAX_RAM;
 
@@ -615,32 +616,34 @@ impl Env {
             ..WorldCfg::default()
         };
         let mut world = World::new(cfg);
+        // The VM only ever reads the `memory` layer of MemoryStorage; rebuild the world
+        // storage with that single layer populated so that cloning a VM is cheap.
+        let mut st = MemoryStorage::default();
+        for (id, code) in [
+            (A, &world.cfg.code_a),
+            (B, &world.cfg.code_b),
+            (progkit::C, &world.cfg.code_c),
+        ] {
+            let bytes: Vec<u8> = code.iter().copied().collect();
+            st.deploy_contract_with_id(&[], &bytes, &id).expect("deploy");
+        }
+        for (c, a, v) in &world.cfg.balances {
+            st.contract_asset_id_balance_insert(c, a, *v).expect("balance");
+        }
         // state + blob addressed by the 32-byte PATTERN (01 02 .. 20) and the all-ones key
         let key = Bytes32::new(pattern32());
         let mut key2 = pattern32();
         key2[31] += 1;
         for c in [A, B] {
-            world
-                .storage
-                .contract_state_insert(&c, &key, &[0xAB; 32])
+            st.contract_state_insert(&c, &key, &[0xAB; 32]).expect("state");
+            st.contract_state_insert(&c, &Bytes32::new(key2), &[0xCD; 40])
                 .expect("state");
-            world
-                .storage
-                .contract_state_insert(&c, &Bytes32::new(key2), &[0xCD; 40])
-                .expect("state");
-            world
-                .storage
-                .contract_state_insert(&c, &Bytes32::new([0xff; 32]), &[0xEE; 32])
+            st.contract_state_insert(&c, &Bytes32::new([0xff; 32]), &[0xEE; 32])
                 .expect("state");
         }
-        StorageMutate::<BlobData>::insert(
-            &mut world.storage,
-            &BlobId::new(pattern32()),
-            &[0x5a; 100],
-        )
-        .expect("blob");
-        world.storage.commit();
-        world.storage.persist();
+        StorageMutate::<BlobData>::insert(&mut st, &BlobId::new(pattern32()), &[0x5a; 100])
+            .expect("blob");
+        world.storage = st;
         let params = world.params.clone();
         let cpp = CheckPredicateParams::from(&params);
         Env {
@@ -756,18 +759,19 @@ fn run_steps<S: InterpreterStorage, const PREDICATE: bool>(
     loop {
         let pc = reg_of(vm, RegId::PC);
         let opb = vm.memory().read(pc, 4usize).map(|b| b[0]).ok();
-        let name = opb.map(opname).unwrap_or_else(|| "FETCH".into());
+        let name = || opb.map(opname).unwrap_or_else(|| "FETCH".into());
         let in_call = reg_of(vm, RegId::FP) != 0;
         let g0 = reg_of(vm, RegId::GGAS);
         let obs = of_exec(catch_any(|| vm.execute::<PREDICATE>()));
         steps += 1;
-        if let Some(f) = judge_common(&obs, &name) {
-            findings.push(f);
+        if matches!(obs, Obs::HostPanic(_) | Obs::Bug(_)) {
+            findings.extend(judge_common(&obs, &name()));
         }
         let fin = match &obs {
             Obs::Ok(l) => {
                 let g1 = reg_of(vm, RegId::GGAS);
                 if g1 >= g0 {
+                    let name = name();
                     findings.push((
                         format!("C29:free-instruction:{name}"),
                         format!(
@@ -775,7 +779,7 @@ fn run_steps<S: InterpreterStorage, const PREDICATE: bool>(
                         ),
                     ));
                 }
-                match l.as_str() {
+                match *l {
                     "proceed" => false,
                     "return" | "returndata" => PREDICATE || !in_call,
                     _ => true,
